@@ -1,18 +1,26 @@
 (* SnapshotFacts.v — C06-T2 / C05-T2 / C07-T2 at the level of whole histories.
 
-   1. [good_run]            the staging area is canonical with valid entries, the
-                            work tree holds valid paths, every stored commit's
-                            snapshot reads back well, after EVERY history of valid
-                            actions (no collision, no object of 2^63 bytes or more)
-      [index_good_step]     one step
-   2. [snapshot]            what Goit reads as the staged entries of a commit
-      [commit_snapshot_*]   after a successful commit, the snapshot of the new
-                            HEAD commit is the staging area it was made from
-      [snapshot_stable_run] and stays so in every later world
-      [reset_reads_back_*]  reset --mixed / --hard makes the staging area equal
-                            to the snapshot of the commit it resolves
-   3. [commit_nothing_refused_*]
-   4. [ex_history_*]        non-vacuity by computation *)
+   The invariant: [GoodW w] = [WtValid w] /\ [IndexGood w] /\ [SnapshotsGood' (w_objs w)]
+   /\ [CfgNl w], where [SnapshotsGood'] is [SnapshotsGood] remembering the [item]
+   form of every walked snapshot and [CfgNl] says that no loaded configuration
+   value holds a newline (needed so that the author line of a commit cannot
+   smuggle in a second "tree" header: [parse_commit_tree]).
+   It is proved for the situations [Live w]: no SHA-1 collision flagged and
+   [SmallStore (w_objs w)] (every object file shorter than 2^63 bytes; beyond
+   that Goit cannot read its own object back, [payload_too_big]).  Both are
+   conditions on the FINAL world only: they hold of every earlier world then.
+
+   1. [good_step] [index_good_step] [good_run] [good_run_strong] [reachable_good]
+      [staging_area_sorted]      C06-T2
+   2. [snapshot]                 what Goit reads as the staged entries of a commit
+      [commit_snapshot_step]     (a) after a successful commit the snapshot of the
+                                 new HEAD commit is the staging area it was made from
+      [snapshot_ext] [snapshot_stable_run] [commit_snapshot]   (b) and stays so
+      [reset_reads_back]         (c) reset --mixed/--hard sets the staging area to
+                                 the snapshot of the commit it resolves (no invariant)
+      [reset_restores_commit]    C05-T2
+   3. [commit_guard] [commit_nothing_refused] [commit_guard_passes]   C07-T2
+   4. [ex_history_*] [ex_theorem_applies]   non-vacuity by computation *)
 From Coq Require Import Strings.String Strings.Byte.
 From Coq Require Import List Bool NArith ZArith Arith Lia Sorted.
 From Goit Require Import Bytes Sha1 Obj Tree Index Regex GoRegex Commit Reflog Config Ignore World Repo.
